@@ -1,5 +1,5 @@
 (* Extract/D17.v — text-line interpreter of the C17 model and spec. *)
-From PV Require Import Base.Slice Model.DNS Model.DNSMerge Model.DNSRecords Model.DNSNbns Model.DNSMdns Spec.RFC1035 Base.Text.
+From PV Require Import Base.Slice Model.DNS Model.DNSMerge Model.DNSRecords Model.DNSNbns Model.DNSMdns Model.DNSConsts Spec.RFC1035 Base.Text.
 Open Scope string_scope.
 Open Scope N_scope.
 
@@ -441,6 +441,17 @@ Definition dispatch (kind : string) (args : list string) : string :=
   else if String.eqb kind "nbns" then
     match args with
     | [b] => match bytes_of_tok b with Some b' => run_nbns b' | None => BADARGS end
+    | _ => BADARGS
+    end
+  else if String.eqb kind "consts" then
+    (* consts <name> <value read from the Go source> *)
+    match args with
+    | [k; v] =>
+        match const_lookup k dns_consts, N_of_dec v with
+        | Some mv, Some sv => out3 (if mv =? sv then "ok" else "model-has:" ++ dec_of_N mv) "-" "-"
+        | None, _ => out3 "unknown-constant" "-" "-"
+        | _, None => BADARGS
+        end
     | _ => BADARGS
     end
   else if String.eqb kind "mdns" then
